@@ -182,6 +182,8 @@ def parse_puzz_link_url(url):
         else:
             num = [-1, -1, -1, -1]
             for j in range(4):
+                if i >= len(body):
+                    raise ValueError("truncated clue")
                 if body[i] == "-":
                     num[j] = int(body[i + 1 : i + 3], 16)
                     i += 3
@@ -192,6 +194,10 @@ def parse_puzz_link_url(url):
                     if body[i] != ".":
                         num[j] = int(body[i], 16)
                     i += 1
+                if num[j] < -1:
+                    raise ValueError("negative clue number")
+            if width <= 0 or pos >= height * width:
+                raise ValueError("clue outside the board")
             res.append((pos // width, pos % width, num[0], num[2], num[1], num[3]))
             pos += 1
     return height, width, res
